@@ -44,6 +44,12 @@ header = """#Aegean version {0}
 CC2FHWM = 2 * math.sqrt(2 * math.log(2))
 FWHM2CC = 1 / CC2FHWM
 
+# Verification hook (add-only): inert unless AEGEAN_VERIF=1 when this module
+# is imported.  When enabled, _refit_islands appends one record per fitted
+# island (cut-out bounds, slice bounds, per-source pixel, widths and local
+# offsets) to this module-level list.
+_verif_trace = [] if os.environ.get("AEGEAN_VERIF") == "1" else None
+
 # dummy logger
 log = logging.getLogger("dummy")
 log.addHandler(logging.NullHandler())
@@ -1759,6 +1765,13 @@ class SourceFinder(object):
                 # this source is being refit so add it to the list
                 included_sources.append(src)
                 i += 1
+                if _verif_trace is not None:
+                    if len(included_sources) == 1:
+                        _verif_src = []
+                    _verif_src.append(
+                        (src.uuid, x, y, xwidth, ywidth,
+                         float(source_x), float(source_y),
+                         float(sx), float(sy), float(theta)))
 
                 # TODO: Allow this mask to be used in conjunction with
                 # the FWHM mask that is defined further on
@@ -1794,6 +1807,20 @@ class SourceFinder(object):
             # this .copy() will stop us from modifying the parent region when
             # we later apply our mask.
             idata = data[int(xmin): int(xmax), int(ymin): int(ymax)].copy()
+            if _verif_trace is not None:
+                _verif_trace.append(dict(
+                    inum=inum, stage=stage, shape=tuple(shape),
+                    island=[s.uuid for s in isle],
+                    bounds=(xmin, xmax, ymin, ymax),
+                    idata_shape=tuple(idata.shape),
+                    sources=list(_verif_src),
+                    local=[tuple(
+                        (params["c{0}_{1}".format(k, n)].value,
+                         params["c{0}_{1}".format(k, n)].min,
+                         params["c{0}_{1}".format(k, n)].max,
+                         bool(params["c{0}_{1}".format(k, n)].vary))
+                        for n in ("amp", "xo", "yo", "sx", "sy", "theta"))
+                        for k in range(int(params["components"].value))]))
             # now convert these back to indices within the idata region
             # island_mask = np.array([(x-xmin, y-ymin) for x,y in island_mask])
 
